@@ -172,13 +172,28 @@ Fixpoint apo_loop (fuel : nat) (buf : list N) (t num asn : N) : pres (N * N * N)
 Definition AS_PATH_TYPE_SET : N := 1.
 Definition AS_PATH_TYPE_SEQ : N := 2.
 
-Definition as_path_origin (buf : list N) : pres (option N) :=
+(* (type, length, last AS) of the final segment; None when the attribute has < 2 bytes *)
+Definition as_path_last_segment (buf : list N) : pres (option (N * N * N)) :=
   if (length buf <? 2)%nat then POk None
   else match apo_loop (length buf) buf 0 0 0 with
        | PPanic => PPanic
-       | POk (t, num, asn) =>
-           if (t =? AS_PATH_TYPE_SEQ) && (0 <? num) then POk (Some asn) else POk None
+       | POk x => POk (Some x)
        end.
+
+Definition as_path_origin (buf : list N) : pres (option N) :=
+  match as_path_last_segment buf with
+  | PPanic => PPanic
+  | POk (Some (t, num, asn)) =>
+      if (t =? AS_PATH_TYPE_SEQ) && (0 <? num) then POk (Some asn) else POk None
+  | POk None => POk None
+  end.
+
+Definition as_path_ends_with_set (buf : list N) : pres bool :=
+  match as_path_last_segment buf with
+  | PPanic => PPanic
+  | POk (Some (t, _, _)) => POk (t =? AS_PATH_TYPE_SET)
+  | POk None => POk false
+  end.
 
 (* ---- validate *)
 Inductive vstate := NotFound | Valid | Invalid.
@@ -194,14 +209,21 @@ Record vres := {
 
 Definition AS_PATH : N := 2.
 
-(* attributes: (type code, bytes); only the first AS_PATH is looked at *)
+(* attributes: (type code, bytes); only the first AS_PATH is looked at.
+   The origin is an AS number; 0 stands for "NONE" (final AS_SET): the
+   comparison below never lets AS 0 match. *)
 Definition origin_asn (local_asn : N) (attrs : list (N * list N)) : pres N :=
   match find (fun a => fst a =? AS_PATH) attrs with
   | Some a =>
       match as_path_origin (snd a) with
       | PPanic => PPanic
       | POk (Some asn) => POk asn
-      | POk None => POk local_asn
+      | POk None =>
+          match as_path_ends_with_set (snd a) with
+          | PPanic => PPanic
+          | POk true => POk 0
+          | POk false => POk local_asn
+          end
       end
   | None => POk local_asn
   end.
@@ -273,6 +295,7 @@ Definition cands_cover (addr : list N) (mask : N) (m : trie) : pres trie :=
 Definition div_ceil8 (m : N) : N := (m + 7) / 8.
 
 Definition validate_with (cands : list N -> N -> trie -> pres trie)
+           (origin_asn : N -> list (N * list N) -> pres N)
            (t : rtab) (local_asn : N) (n : net) (attrs : list (N * list N))
   : pres (option vres) :=
   let m := sel (n_fam n) t in
@@ -291,7 +314,7 @@ Definition validate_with (cands : list N -> N -> trie -> pres trie)
         end
     end.
 
-Definition validate := validate_with cands_cover.
+Definition validate := validate_with cands_cover origin_asn.
 
 (* ---- histories *)
 Inductive op :=
